@@ -115,15 +115,19 @@ def gen_cases(rng, nargs=(1, 4), ncases=(1, 8), names=None, per_arg_types=None, 
 
 def spell_combos(combos, spelling):
     """Turn [[arg, values], ...] into one of the accepted spellings."""
+    def keep(v, conv):
+        # plain lists are copied (or turned into tuples); any other container (ndarray, range, dict view, generator...)
+        # is handed over exactly as given
+        return conv(v) if isinstance(v, (list, tuple)) else v
     if spelling == "dict":
-        return {a: list(v) for a, v in combos}
+        return {a: keep(v, list) for a, v in combos}
     if spelling == "tuple":
-        return tuple((a, tuple(v)) for a, v in combos)
+        return tuple((a, keep(v, tuple)) for a, v in combos)
     if spelling == "list":
-        return [(a, list(v)) for a, v in combos]
+        return [(a, keep(v, list)) for a, v in combos]
     if spelling == "single":
         assert len(combos) == 1
-        return (combos[0][0], list(combos[0][1]))
+        return (combos[0][0], keep(combos[0][1], list))
     raise ValueError(spelling)
 
 
